@@ -4,7 +4,9 @@
      [c: the case (see ResponseEmit), ev: the server-visible events start/body/eof with the
       projected header values (cl, ct), pieces: the received body as a list of source pieces
       [src, idx], begun, closes: what the stream double saw, raised / sendFailed: an injected
-      fault really fired, exc: an exception escaped the application callable, errors: number of
+      fault really fired, renderFailed: body rendering raised the injected fault (handled by an
+      error handler: the response judged is the re-filled one, ResponseEmit!Eff; whether the
+      application's stream survived is read off `begun`), exc: an exception escaped the application callable, errors: number of
       protocol errors the monitor reported]
    Every trace is one initial state.  The judge is total: it consumes every event, evaluates the
    clauses of ResponseEmit (the very operators that are the invariants of the emission machine)
@@ -24,15 +26,17 @@ vars == <<tid, l, verdict>>
 T == Traces[tid]
 
 (* the machine's variables are bound to the observation; only the clause operators are used *)
-RE == INSTANCE ResponseEmit WITH RenderSetsType <- FALSE, BodilessByLine <- FALSE, ForgetCloseOnFault <- FALSE,
-          c <- T.c, pc <- "done", ev <- T.ev, k <- 0, hand <- -1, sends <- 0,
+RE == INSTANCE ResponseEmit WITH RenderSetsType <- FALSE, BodilessByLine <- FALSE, ForgetCloseOnFault <- FALSE, StaleLengthOnRenderFault <- FALSE,
+          c0 <- T.c, c <- T.c, pc <- "done", ev <- T.ev, k <- 0, hand <- -1, sends <- 0,
           begun <- T.begun, closes <- T.closes, raised <- T.raised, sendFailed <- T.sendFailed
 
+(* the response the clauses speak about *)
+C == IF T.renderFailed THEN RE!Eff(T.c, T.begun) ELSE T.c
 Faulted  == T.raised \/ T.sendFailed
 Complete == ~Faulted /\ ~T.exc
-Prefix(n) == [c |-> T.c, ev |-> SubSeq(T.ev, 1, n), pieces |-> <<>>, begun |-> T.begun, closes |-> 0,
+Prefix(n) == [c |-> C, ev |-> SubSeq(T.ev, 1, n), pieces |-> <<>>, begun |-> T.begun, closes |-> 0,
               complete |-> FALSE, ended |-> FALSE]
-Whole     == [c |-> T.c, ev |-> T.ev, pieces |-> T.pieces, begun |-> T.begun, closes |-> T.closes,
+Whole     == [c |-> C, ev |-> T.ev, pieces |-> T.pieces, begun |-> T.begun, closes |-> T.closes,
               complete |-> Complete, ended |-> TRUE]
 
 JudgePrefix(o) ==
